@@ -410,7 +410,9 @@ prefixexp:
                 ex.AdjustRet = true
             }
             $$ = $2
-            $$.SetLine($1.Pos.Line)
+            if _, ok := $2.(*ast.FunctionExpr); !ok {
+                $$.SetLine($1.Pos.Line)
+            }
         }
 
 afunctioncall:
